@@ -28,6 +28,7 @@ func propC07() *Property {
 			{ID: "C07.R3", Title: "possibly-nil highlighted item is checked before use", Floor: 7, Run: c07R3},
 			{ID: "C07.R4", Title: "keys are ignored while loading", Floor: 1, Run: c07R4},
 			{ID: "C07.R5", Title: "Backspace removes what one key press appended (a rune)", Floor: 2, Run: c07R5},
+			{ID: "C07.R6", Title: "every history entry is a page of its own", Floor: 2, Run: c07R6},
 		},
 	}
 }
@@ -653,4 +654,52 @@ func c07R5(c *Ctx) {
 	})
 	c.check(nAppend >= 1 && nErase >= 1, FuncName(upd)+"/buffer-editing", P.Pos(upd.Pos()), FuncName(upd),
 		fmt.Sprintf("%d append site(s) and %d erase site(s) analysed", nAppend, nErase), "Update no longer appends typed keys to / erases from the buffer in a recognisable way")
+}
+
+// c07R6: the keymap speaks about pages as independent things: opening an item
+// shows it with the cursor on it, and going back shows the previous page as it
+// was left. Both rest on every entry of the history being a page of its own.
+// Every value added to the history must therefore be a Page allocated by the
+// function that adds it (through every phi edge); a page taken from a field, a
+// map or a cache is shared between entries, so moving on one moves the other
+// and a re-opened item starts where the old page was left.
+func c07R6(c *Ctx) {
+	P := c.P
+	n := 0
+	for _, fn := range P.FuncsIn("servitor/ui") {
+		fname := FuncName(fn)
+		eachInstr(fn, func(_ *ssa.BasicBlock, _ int, in ssa.Instruction) {
+			call, ok := in.(*ssa.Call)
+			if !ok {
+				return
+			}
+			fo := calleeObj(&call.Call)
+			if fo == nil || fo.Name() != "Add" || fo.Pkg() == nil || fo.Pkg().Path() != "servitor/history" || len(call.Call.Args) != 2 {
+				return
+			}
+			n++
+			var fresh func(v ssa.Value, depth int) bool
+			fresh = func(v ssa.Value, depth int) bool {
+				v = unwrapLoad(v)
+				if depth > 6 {
+					return false
+				}
+				switch x := v.(type) {
+				case *ssa.Alloc:
+					return x.Heap && x.Parent() == fn
+				case *ssa.Phi:
+					for _, e := range x.Edges {
+						if !fresh(e, depth+1) {
+							return false
+						}
+					}
+					return true
+				}
+				return false
+			}
+			c.check(fresh(call.Call.Args[1], 0), fname+"/history-entry", P.InstrPos(in), fname, "a page allocated for this entry",
+				"a page that already exists (from a field, map or cache) is added to the history: two entries then share cursor and contents, a re-opened item does not start on the opened item and moving on one page moves the other")
+		})
+	}
+	c.info("history_adds", n)
 }
